@@ -12,6 +12,8 @@ sys.stdout = _out
 print("| change | property | what it needs to manifest | caught by (violation keys) |")
 print("|---|---|---|---|")
 for r in d["results"]:
+    if metas.get(r["mutant"], {}).get("neutralised_by"):
+        print(f"| {r['mutant']} | {r.get('property')} | made harmless by a later fix: {metas[r['mutant']]['neutralised_by'][:160]} | (not run any more) |"); continue
     if not r.get("applies"):
         print(f"| {r['mutant']} | | patch does not apply | |"); continue
     m = metas.get(r["mutant"], {})
@@ -27,8 +29,9 @@ if "--update-design" in sys.argv:
     p = os.path.join(HERE, "DESIGN.md")
     s = open(p).read()
     a, b = s.index("<!-- MATRIX-BEGIN -->"), s.index("<!-- MATRIX-END -->")
-    caught = sum(1 for r in d["results"] if r.get("applies") and any(c["caught"] for c in r["checks"].values()))
-    total = sum(1 for r in d["results"] if r.get("applies"))
+    live = [r for r in d["results"] if r.get("applies") and not metas.get(r["mutant"], {}).get("neutralised_by")]
+    caught = sum(1 for r in live if any(c["caught"] for c in r["checks"].values()))
+    total = len(live)
     head = f"{caught} of {total} changes are caught by at least one check ({len(d['results'])} listed; kinds: seeded = independent sub-agent, own = hand-written, reverted-fix = a fix: commit reverted).\n\n"
     s = s[:a] + "<!-- MATRIX-BEGIN -->\n" + head + txt + s[b:]
     open(p, "w").write(s)
